@@ -208,6 +208,9 @@ def run(tier="quick", seed=0):
         lits = rng.sample(lits, 1500)
     lits += ["".join(rng.choice(alpha) for _ in range(rng.randint(4, 40))) for _ in range(300 if tier == "quick" else 5000)]
     lits += ["\\[" + x + "\\]" for x in ("a", "-beta", "1.2")]
+    # always: every one-character literal and literals with a blank at either end (seeded generation reaches them only by chance)
+    lits += [c for c in alpha] + [" x", "x ", " rev 7 ", " v", "= "]
+    lits = list(dict.fromkeys(lits))
     bad = []
     n = 0
     for lit in lits:
